@@ -369,6 +369,23 @@ func runC10(w *World) *Result {
 					r.Bad("R-C10-names", key, "-", "a user global named "+env+" overwrites the shell variable the emitted commands depend on (command lookup / word splitting)")
 				}
 			}
+			// names bash gives a meaning of its own: the special parameter $_ (set by the shell after
+			// every command), a read-only variable, a variable that changes by itself
+			for _, sp := range [][2]string{
+				{"_", "is the special parameter the shell sets to the last argument of every command: a global of that name (for _, v := range xs at top level) loses its value at once"},
+				{"UID", "is read-only in bash: the assignment fails (\"UID: readonly variable\") and the script goes on with the shell's value"},
+				{"RANDOM", "yields a new number on every read in bash"},
+			} {
+				if !inU(sp[0]) {
+					continue
+				}
+				key := "name:bash:special:" + sp[0]
+				if disjointScheme {
+					r.Ok("R-C10-names", key, "-", "user names cannot spell "+sp[0])
+				} else {
+					r.Bad("R-C10-names", key, "-", "a user global named "+sp[0]+" is emitted unchanged; "+sp[0]+" "+sp[1])
+				}
+			}
 		}
 	}
 	return r
